@@ -25,7 +25,7 @@ def run(ctx, mine, quick):
     for klass in ("exact", "approx"):
         dump = os.path.join(mktempdir(prefix="lazydump_"), "dump.json")
         K = klass.capitalize()
-        r = tlc.run_tlc("LazyLandscape", workers=1, env={"DUMP_FILE": dump}, init="DumpInit", nxt="Next",
+        r = tlc.run_tlc("LazyLandscape", workers=1, env={"DUMP_FILE": dump}, init="DumpInit", nxt="DumpNext",
                         constants=dict(Unary="<-Unary" + K, Binary="<-Binary" + K, MaxLen=maxlen, Unforced="<-NoneUnforced", LazyP=True, LazyQ=True), heap="4g")
         if r["error"] or not os.path.exists(dump):
             ctx.machinery_errors.append("LazyLandscape dump failed:\n" + r["out"][-1500:]); return
